@@ -7,6 +7,45 @@ TB = ("Trusted: Lean 4.33 kernel (propext, Classical.choice, Quot.sound only); S
       "The theorems are about the Lean model; the model is tied to /repo by regenerated tables (translator) and by "
       "differential execution (harness) on every run.")
 claimed = {
+ "C03": dict(
+   text="Lean theorems: the signed messages are injective functions of the covered fields for all lengths (authData || hash with fixed hash length; the fido-u2f "
+        "message with a variable-length credential id in the middle); for each signed format acceptance implies that the binding oracle answered positively on exactly "
+        "that message under the presented certificate / credential key (packed x5c & self, fido-u2f, android-key, tpm incl. extraData, apple nonce, SafetyNet nonce); "
+        "under explicit idealised hypotheses (SigBinds / HashInj / ShaTotal) two objects sharing the statement and accepted for (a,h), (a',h') have a = a' and h = h' "
+        "(rpIdHash, credential id and 32-byte coordinates for fido-u2f). Packed self attestation is stated _partial (equal key material) with a kernel-checked "
+        "counterexample to the unrestricted statement. Tie: bit-flip streams over authenticator data, hash and binding elements against the real verifiers.",
+   ref="DESIGN.md §8 C03", technique="Lean 4 proof (message-format injectivity, binding under explicit crypto hypotheses) + differential bit-flip execution"),
+ "C04": dict(
+   text="Lean theorems: for every environment each format's verifier accepts IF AND ONLY IF the declarative requirement list of that format holds (Spec/Attestation.lean: "
+        "packed x5c v3 / not CA / C,O,CN non-empty / OU literal / AAGUID extension non-critical and equal; packed self alg = key alg and credential key signed; fido-u2f "
+        "exactly one certificate with P-256 key and EC2 credential key; tpm magic / type / name = digest of pubArea under pubArea.nameAlg / pubArea key = credential key / "
+        "AIK v3, not CA, EKU, SAN hardware details; android-key certificate key = credential key, allApplications absent in both lists, TEE purpose SIGN and origin "
+        "GENERATED, challenge = hash; apple certificate key = credential key and nonce; SafetyNet chain for attest.android.com, claims, nonce), plus the dispatcher. "
+        "Tie: one differential stream per requirement with everything else re-signed consistently.",
+   ref="DESIGN.md §8 C04", technique="Lean 4 proof (accept iff requirement list, per format, for all environments) + per-requirement differential execution",
+   note="Known finding D14 (Keymaster NULL-typed elements in the published encoding are not read by encoding/asn1) is reported as KNOWN-FINDING."),
+ "C05": dict(
+   text="The (<-) directions of the per-format iff theorems (C04.*_iff), of C02.regPre_iff / reg_iff and of C01.auth_iff: whatever satisfies the declarative conditions "
+        "is accepted, with the format's attestation type (result_type) and the x5c list as trust path (trust_path_is_x5c); counter, BE/BS flags, extension data, "
+        "credential-id length and unknown client-data members do not occur in the conditions. Tie: honest registration+assertion pairs over the full format x key kind "
+        "x attestation key product with benign variation, ground truth = accepted, against the real ceremonies.",
+   ref="DESIGN.md §8 C05", technique="Lean 4 proof (converse directions of the acceptance iff theorems) + differential execution of honest ceremonies"),
+ "C09": dict(
+   text="PARTIAL. Lean: the model is total by construction; CBOR fuel is never the reason for a reject and is linear in the input; nesting beyond 32 is rejected; the "
+        "absent-optional cases (no authenticatorSelection, no attested credential data, TPM name without digest, empty x5c) are explicit rejects / non-demands; the "
+        "regenerated panic-site facts over all non-test code are the reviewed ones (explicit panics only at init / test helper, no single-value type assertion, every "
+        "optional-pointer dereference nil-checked, constant-index sites pinned). Tie: 25 entry points under recover + time budget on mutated, random, extreme and "
+        "structurally-deleted inputs; a panic, hang or oversized heap is a disagreement with the model's answer.",
+   ref="DESIGN.md §8 C09", technique="Lean 4 proof of model totality / fuel sufficiency + pinned panic-site facts + crash/timeout differential execution",
+   note="PARTIAL: Go runtime behaviour (panics in dependencies, time, memory) is observed, not proved."),
+ "C16": dict(
+   text="PARTIAL. Lean: regenerated effect facts over all non-test code are the reviewed ones (no package-level write outside init, no goroutine, no RelyingParty method "
+        "writes through its receiver, no write through parameters except one local helper); in the model a ceremony's outcome is a function of its arguments and of the "
+        "storage answers it obtains only (registration: the answers at the attested id; authentication: the answer for the response's id), which is the "
+        "interleaving-independence statement over a linearizable storage. Tie: race-detector build; concurrent mixed ceremonies on one RelyingParty vs each run alone vs "
+        "the model; deep before/after comparison of options, credentials and stored records; repeated calls; package tables before/after.",
+   ref="DESIGN.md §8 C16", technique="Lean 4 proof over regenerated effect facts + model-level independence + race-detector differential execution",
+   note="PARTIAL: the Go memory model and scheduler are outside the model; races are detected only on interleavings that occur."),
  "C07": dict(
    text="Lean theorem history_refines: for ANY finite history of registrations and authentications (any length, any universe, any environment) against the "
         "in-memory storage, every ceremony's outcome and the resulting storage equal those of the reference state machine id -> (owner, key) (forward simulation "
